@@ -690,35 +690,26 @@ def r147(ctx, R):
 
 def r145(ctx, R):
     prog = ctx.prog
-    f = prog.func('placement.deploy:deploy')
-    cs = [c for c in own_nodes(f.node) if isinstance(c, ast.Call)
-          and isinstance(c.func, ast.Name)
-          and c.func.id == 'microversion_middleware']
-    mm = [a for a in own_nodes(f.node) if isinstance(a, ast.Assign)
-          and any(src(t) == 'microversion_middleware' for t in a.targets)]
-    ok = len(cs) == 1 and len(mm) == 1 and prog.dotted(
-        f.module, mm[0].value, f) == \
-        'microversion_parse.middleware.MicroversionMiddleware'
+    P = C.pipeline(ctx)
+    f = P.func
+    MM = 'microversion_parse.middleware.MicroversionMiddleware'
+    cs = [(a, c) for a, callee, c in P.direct if callee == [MM]]
+    ok = len(cs) == 1
     if ok:
-        c = cs[0]
+        st, c = cs[0]
         args = [prog.dotted(f.module, a, f) or src(a) for a in c.args]
         jf = C.kwarg(c, 'json_error_formatter')
-        ok = args == ['application', 'placement.microversion.SERVICE_TYPE',
-                      'placement.microversion.VERSIONS'] or args[1:] == [
-            'placement.microversion.SERVICE_TYPE',
-            'placement.microversion.VERSIONS']
+        ok = args[1:] == ['placement.microversion.SERVICE_TYPE',
+                          'placement.microversion.VERSIONS']
         ok = ok and jf is not None and prog.dotted(f.module, jf, f) == \
             'placement.util.json_error_formatter'
-        st = C.stmt_of(c)
-        ok = ok and isinstance(st, ast.Assign) and src(
-            st.targets[0]) == 'application'
         # wrapped before the other middlewares and not undone
-        loops = [x for x in own_nodes(f.node) if isinstance(x, ast.For)]
-        ok = ok and bool(loops) and cfgmod.cfg_of(f).dominates(st, loops[0])
+        ok = ok and P.loop is not None and P.cfg.dominates(st, P.loop) \
+            and not C.guarding_ifs(st, f.node) and P.ret_ok
     R.ob('R14.5', 'deploy:microversion-middleware', ok,
-         'application = MicroversionMiddleware(application, SERVICE_TYPE, '
-         'VERSIONS, json_error_formatter=util.json_error_formatter) before '
-         'the outer middlewares', [src(c)[:90] for c in cs], func=f)
+         'app = MicroversionMiddleware(app, SERVICE_TYPE, VERSIONS, '
+         'json_error_formatter=util.json_error_formatter) before the outer '
+         'middlewares', [src(c)[:90] for _a, c in cs], func=f)
     st = prog.const('placement.microversion', 'SERVICE_TYPE')
     R.ob('R14.5', 'SERVICE_TYPE', st == 'placement',
          "service type 'placement'", st)
